@@ -73,12 +73,12 @@ PROPS = {
         level_note=COMMON_NOTE,
     ),
     'C06': dict(
-        components=[('kani', 'pattern_raw', {}), b('packed')],
-        level_text='Proof so far only of the raw-pointer pattern comparison (Kani: is_equal_raw / is_prefix equal slice comparison and stay inside exactly-sized objects, bounded by pattern length <= 9). Bounded stand-in for everything else: every packed variant available on this CPU (Rabin-Karp, slim Teddy 128/256, fat Teddy, default) on the real SIMD code vs the leftmost definition, haystack lengths 0..=100, every span of short haystacks.',
+        components=[('kani', 'pattern_raw', {}), ('kani', 'teddy_searcher', {}), (V, 'u5_packed_api', {}), b('packed')],
+        level_text='Proof (Verus, u5_packed_api): the real packed::Searcher::find_in/find_in_slow/FindIter::next dispatch — the Teddy minimum-length precondition holds on its branch, shorter spans go to Rabin-Karp, both engines get exactly haystack[..span.end] and span.start, results lie in the span, the iterator restarts at the previous end. Kani (bounded by length): raw-pointer pattern comparison equals slice comparison inside exactly-sized objects; teddy::Searcher::find pointer<->offset conversion and its minimum-length assert. Bounded stand-in for the engines themselves (Teddy windows/buckets/verification, Rabin-Karp): every packed variant available on this CPU (Rabin-Karp, slim Teddy 128/256, fat Teddy, default) on the real SIMD code vs the leftmost definition, haystack lengths 0..=100, every span of short haystacks.',
         level_note='Teddy window arithmetic, bucket assignment and Rabin-Karp are covered by the bounded executed contract only (labelled bounded). SIMD intrinsics are outside every installed verifier.',
     ),
     'C07': dict(
-        components=U2 + [(V, 'u1_iter', {}), b('stream', aspects='find')],
+        components=U2 + [(V, 'u1_iter', {}), b('stream', aspects='find'), b('ac', families='small', lens='1')],
         level_text='Proof (Verus, fully within the family): for every reader obeying the std::io::Read contract — i.e. for all read sizes, all positions where a read ends, all buffer capacities > min — the real StreamChunkIter::next/StreamFindIter::next yield exactly st_rest(stream), the run of the abstract automaton over the concatenated stream with absolute offsets (Buffer::new/fill/roll proved with content postconditions). The in-memory side (FindIter over find_spec) is proved in u1_iter. Bounded companion: real readers with explicit schedules and capacities 1..8 bytes above the minimum (hook H2).',
         level_note=COMMON_NOTE + ' Read contract = std documentation (assumption about the caller\'s reader). Buffer::free_buffer (one line) is trusted with a stated contract. Streams shorter than 2^64 bytes.',
     ),
@@ -94,7 +94,7 @@ PROPS = {
         level_note=COMMON_NOTE,
     ),
     'C10': dict(
-        components=[('kani', 'search_leaf', {}), ('kani', 'prefilter_findin', {})] + U1 + [sem('std,lf,ll', 'find,iter,ov,anch,spans', families='small', cfgs='low', rel='span', maxhay='5', thorough_maxhay='7'), b('pc', aspects='find,iter', mode='span')],
+        components=[('kani', 'search_leaf', {}), ('kani', 'prefilter_findin', {}), ('kani', 'teddy_searcher', {}), (V, 'u5_packed_api', {})] + U1 + [sem('std,lf,ll', 'find,iter,ov,anch,spans', families='small', cfgs='low', rel='span', maxhay='5', thorough_maxhay='7'), b('pc', aspects='find,iter', mode='span')],
         level_text='Proof (Verus): every postcondition of the search units is stated for an arbitrary valid span; haystack is indexed only at positions in [start,end) (bounds obligations), every reported match lies in the span (lemma_scan_bounds), is_done yields None, Input::set_span/set_start preconditions are exactly the non-panicking domain. Bounded stand-in: all spans incl. start = end+1 on the real builders and prefilters.',
         level_note=COMMON_NOTE,
     ),
@@ -119,7 +119,7 @@ PROPS = {
         level_note=COMMON_NOTE,
     ),
     'C15': dict(
-        components=[('kani', 'search_leaf', {}), ('kani', 'pattern_raw', {})] + U1 + U2 + [(V, 'u7_replace', {}), b('packed', mode='safety'), b('pc', mode='safety')],
+        components=[('kani', 'search_leaf', {}), ('kani', 'pattern_raw', {}), ('kani', 'teddy_searcher', {}), (V, 'u5_packed_api', {})] + U1 + U2 + [(V, 'u7_replace', {}), b('packed', mode='safety'), b('pc', mode='safety')],
         level_text='Proof (Verus): every index, slice, subtraction, addition, unwrap/expect/assert!/debug_assert! in the extracted search functions is a discharged obligation; reported matches satisfy start <= end <= len and pid < pattern count (match_in lemmas). Bounded stand-in for the raw-pointer SIMD code: all packed variants on exactly-sized allocations for lengths 0..=100.',
         level_note=COMMON_NOTE + ' Raw-pointer code (Teddy, is_prefix_raw) is covered by bounded runs only until the Kani unit lands.',
     ),
